@@ -171,6 +171,26 @@ theorem pep440_print_parse_wf (v : Pep440.Ver) (h : Pep440.WF v) : Pep440.parse 
 example : Pep440.WF { epoch := 1, release := [2, 3], label := ['a'], preN := 5, post := 6, dev := 7 } :=
   ⟨by decide, by decide, by decide, by simp [Pep440.ValidLabel], by decide, by simp, by decide, by decide⟩
 
+/-- A PEP 440 range written `>=a, <b` (`Range.Match` over the two criteria
+    `ParseRange` produces) matches exactly the versions `v` with `a ≤ v < b`. -/
+theorem pep440_range_half_open (a b v : Pep440.Ver) :
+    Pep440.rangeMatch [⟨.ge, a⟩, ⟨.lt, b⟩] v = true ↔ Pep440.cmp a v ≠ .gt ∧ Pep440.cmp v b = .lt := by
+  have hs := pep440_cmp_totalPre.swap a v
+  simp only [Pep440.rangeMatch, List.all_cons, List.all_nil, Pep440.Criterion.matches, Bool.and_true,
+    Bool.and_eq_true, bne_iff_ne, beq_iff_eq, ne_eq]
+  rw [hs]
+  cases Pep440.cmp a v <;> simp [Ordering.swap]
+
+/-- Each operator of a version specifier means what it says in terms of `Compare`. -/
+theorem pep440_criterion_meaning (c v : Pep440.Ver) :
+    ((⟨.eq, c⟩ : Pep440.Criterion).matches v = true ↔ Pep440.cmp v c = .eq) ∧
+    ((⟨.ne, c⟩ : Pep440.Criterion).matches v = true ↔ Pep440.cmp v c ≠ .eq) ∧
+    ((⟨.le, c⟩ : Pep440.Criterion).matches v = true ↔ Pep440.cmp v c ≠ .gt) ∧
+    ((⟨.ge, c⟩ : Pep440.Criterion).matches v = true ↔ Pep440.cmp v c ≠ .lt) ∧
+    ((⟨.lt, c⟩ : Pep440.Criterion).matches v = true ↔ Pep440.cmp v c = .lt) ∧
+    ((⟨.gt, c⟩ : Pep440.Criterion).matches v = true ↔ Pep440.cmp v c = .gt) := by
+  simp [Pep440.Criterion.matches]
+
 /-- Equal PEP 440 versions are interchangeable. -/
 theorem pep440_equal_interchangeable (a b x : Pep440.Ver) (h : Pep440.cmp a b = .eq) :
     Pep440.cmp a x = Pep440.cmp b x ∧ Pep440.cmp x a = Pep440.cmp x b :=
